@@ -680,7 +680,7 @@ pub fn scenario_tamper(ctx: &mut Ctx) -> ScResult {
                 let legit = match refcodec::decode(x) {
                     Verdict::Accept(v2) => {
                         let st = refcodec::integrity_status(x, &v2, &creds.reference());
-                        st.iter().any(|s| s.1 == alg_type(a) && s.2) && st.iter().filter(|s| v2.exposed.contains(&s.0)).all(|s| s.2)
+                        refcodec::ok_verdict_acceptable(&st, &v2.exposed, Some(alg_type(a)))
                     }
                     _ => false,
                 };
@@ -768,16 +768,13 @@ pub fn scenario_tamper(ctx: &mut Ctx) -> ScResult {
                 ev!(ctx, "  !! {}", v.message);
                 return Err(v);
             }
-            // the *last* exposed integrity attribute covers everything before it, the other MAC
-            // included: a wrong value there is byte for byte what tampering with a correctly sealed
-            // message produces, so validation must fail (a wrong *earlier* MAC under a correct later
-            // one can only come from a peer that built it that way: either verdict)
-            if let Some(last) = st.iter().filter(|s| v2.exposed.contains(&s.0)).last() {
-                if !last.2 {
-                    let v = Violation::new("C04", "tamper_detected", "last_exposed_integrity_attribute_wrong", format!("the last exposed integrity attribute ({}) does not match the message, yet validation answered Ok({a:?})", if last.1 == MI { "MESSAGE-INTEGRITY" } else { "MESSAGE-INTEGRITY-SHA256" }));
-                    ev!(ctx, "  !! {} {}", v.message, hex(&x));
-                    return Err(v);
-                }
+            // an Ok is acceptable only if a correct attribute of the reported algorithm lies after
+            // every wrong exposed one (refcodec::ok_verdict_acceptable): a wrong MAC *after* the last
+            // correct one is byte for byte what tampering with a correctly sealed message produces
+            if !refcodec::ok_verdict_acceptable(&st, &v2.exposed, Some(alg_type(a))) {
+                let v = Violation::new("C04", "tamper_detected", "wrong_mac_after_the_last_correct_one", format!("validation answered Ok({a:?}) although a wrong exposed integrity attribute follows the last correct {a:?} attribute"));
+                ev!(ctx, "  !! {} {}", v.message, hex(&x));
+                return Err(v);
             }
         }
     }
@@ -1030,6 +1027,21 @@ fn judge_exposure(ctx: &mut Ctx, x: &[u8], lc: &MessageIntegrityCredentials) -> 
         }
         (Err(_), Verdict::Reject(_)) => ctx.st.inc("verdict.rejected"),
         (Ok(msg), Verdict::Reject(c)) => {
+            // C02 allows an over-long buffer to be accepted as long as the excess is never interpreted:
+            // the only defect is the excess and everything the library exposes is exactly what the
+            // buffer cut to its declared length encodes
+            let only_excess = c.len() == 1 && matches!(c[0], refcodec::Cause::Excess { .. });
+            if only_excess && x.len() >= 20 {
+                let declared = 20 + (((x[2] as usize) << 8) | x[3] as usize);
+                if declared <= x.len() {
+                    if let Verdict::Accept(v2) = refcodec::decode(&x[..declared]) {
+                        if compare_view(&x[..declared], msg, &v2, "C10").is_ok() {
+                            ctx.st.inc("probe.overlong_buffer_accepted_confined_to_declared_length");
+                            return Ok(());
+                        }
+                    }
+                }
+            }
             // accepted although malformed: a C02 matter unless something unauthenticated is exposed
             let exposed: Vec<u16> = msg.iter_attributes().map(|a| a.get_type().value()).collect();
             let (all, _) = refcodec::walk(x, x.len());
